@@ -3,6 +3,7 @@
 package c17
 
 import (
+	"bytes"
 	"context"
 	"crypto/sha256"
 	"encoding/hex"
@@ -16,6 +17,9 @@ import (
 	"sync/atomic"
 	"testing"
 	"time"
+
+	eth2v1 "github.com/attestantio/go-eth2-client/api/v1"
+	eth2p0 "github.com/attestantio/go-eth2-client/spec/phase0"
 
 	"github.com/obolnetwork/charon/core"
 	"github.com/obolnetwork/charon/core/aggsigdb"
@@ -145,25 +149,84 @@ func hashOf(d core.SignedData) string {
 	return hex.EncodeToString(h[:])
 }
 
-// val returns the real signed data of a model value: alternately a bare signature and a versioned attestation.
+// val returns the real signed data of a model value. The first letter of the id selects the type (a: versioned
+// attestation, b: beacon committee selection, c: sync committee selection, d: signed randao, others: bare signature).
+// An id ending in "t" ("at", "bt", ...) is the TWIN of the id without it: the same type and the SAME SIGNATURE BYTES,
+// but another field differs (aggregation bits / validator index / epoch), so twin and base are different data.
 func (tb *tables) val(id string) core.SignedData {
 	if v, ok := tb.vals[id]; ok {
 		return v
 	}
 	var v core.SignedData
-	if len(tb.vals)%2 == 0 {
-		sig := make(core.Signature, 96)
-		h := sha256.Sum256([]byte("val/" + id))
-		for i := range sig {
-			sig[i] = h[i%32] ^ byte(i)
-		}
-		v = sig
+	if len(id) > 1 && strings.HasSuffix(id, "t") {
+		v = twinOf(tb.val(strings.TrimSuffix(id, "t")))
 	} else {
-		v = testutil.RandomDenebCoreVersionedAttestation()
+		v = baseVal(id)
 	}
 	tb.vals[id] = v
 	tb.byHash[hashOf(v)] = id
 	return v
+}
+
+func sigBytes(id string) []byte {
+	sig := make([]byte, 96)
+	h := sha256.Sum256([]byte("val/" + id))
+	for i := range sig {
+		sig[i] = h[i%32] ^ byte(i)
+	}
+	return sig
+}
+
+func baseVal(id string) core.SignedData {
+	var bls eth2p0.BLSSignature
+	copy(bls[:], sigBytes(id))
+	n := uint64(id[0])
+	switch id[0] {
+	case 'a':
+		att := testutil.RandomDenebCoreVersionedAttestation()
+		att.Deneb.Signature = bls
+		return att
+	case 'b':
+		return core.NewBeaconCommitteeSelection(&eth2v1.BeaconCommitteeSelection{ValidatorIndex: eth2p0.ValidatorIndex(n), Slot: eth2p0.Slot(7 * n), SelectionProof: bls})
+	case 'c':
+		return core.NewSyncCommitteeSelection(&eth2v1.SyncCommitteeSelection{ValidatorIndex: eth2p0.ValidatorIndex(n), Slot: eth2p0.Slot(7 * n), SubcommitteeIndex: 2, SelectionProof: bls})
+	case 'd':
+		return core.NewSignedRandao(eth2p0.Epoch(n), bls)
+	default:
+		return core.Signature(sigBytes(id))
+	}
+}
+
+// twinOf returns data with the same signature as v that differs from v in a field the signature bytes do not show.
+func twinOf(v core.SignedData) core.SignedData {
+	c, err := v.Clone()
+	if err != nil {
+		panic(err)
+	}
+	var tw core.SignedData
+	switch x := c.(type) {
+	case core.VersionedAttestation:
+		bits := append([]byte(nil), x.Deneb.AggregationBits...)
+		bits[0] ^= 0x01
+		x.Deneb.AggregationBits = bits
+		tw = x
+	case core.BeaconCommitteeSelection:
+		x.ValidatorIndex++
+		tw = x
+	case core.SyncCommitteeSelection:
+		x.ValidatorIndex++
+		tw = x
+	case core.SignedRandao:
+		x.SignedEpoch.Epoch++
+		tw = x
+	default:
+		panic("no twin for this type of signed data")
+	}
+	// the table itself must be what it claims to be (not an expectation about the store)
+	if !bytes.Equal(tw.Signature(), v.Signature()) || hashOf(tw) == hashOf(v) {
+		panic("twin table broken: signatures must be equal and contents different")
+	}
+	return tw
 }
 
 func (tb *tables) idOf(d core.SignedData) string {
